@@ -16,6 +16,11 @@ mod service;
 
 pub(in crate::server) use server::CloudServer;
 
+#[cfg(gothenburgbitfactory_taskchampion_verif)]
+pub(in crate::server) use iter::AsyncObjectIterator as VerifAsyncObjectIterator;
+#[cfg(gothenburgbitfactory_taskchampion_verif)]
+pub(in crate::server) use service::{ObjectInfo as VerifObjectInfo, Service as VerifService};
+
 #[cfg(feature = "server-gcp")]
 pub(in crate::server) mod gcp;
 
